@@ -62,12 +62,15 @@ pub struct Recorder {
 	pub property: String,
 	/// the run only serves the teardown (C18) oracle: other oracles of the scenario are muted
 	pub only_teardown: bool,
+	/// run-specific text (scratch directory) replaced by a placeholder in everything that is logged
+	pub scrub: Option<String>,
 }
 impl Recorder {
 	pub fn new(keep_log: bool, strict_teardown: bool, property: &str) -> Self {
 		Self {
 			property: property.to_owned(),
 			only_teardown: false,
+			scrub: None,
 			hasher: Sha256::new(),
 			keep_log,
 			log: Vec::new(),
@@ -82,7 +85,14 @@ impl Recorder {
 		}
 	}
 	pub fn event(&mut self, s: impl AsRef<str>) {
-		let s = s.as_ref();
+		let scrubbed;
+		let s = match &self.scrub {
+			Some(pat) if s.as_ref().contains(pat.as_str()) => {
+				scrubbed = s.as_ref().replace(pat.as_str(), "<scratch>");
+				scrubbed.as_str()
+			}
+			_ => s.as_ref(),
+		};
 		self.hasher.update((s.len() as u64).to_le_bytes());
 		self.hasher.update(s.as_bytes());
 		if self.keep_log {
@@ -110,10 +120,14 @@ impl Recorder {
 			return;
 		}
 		if self.violation.is_none() {
+			let mut detail: String = detail.into();
+			if let Some(pat) = &self.scrub {
+				detail = detail.replace(pat.as_str(), "<scratch>");
+			}
 			let v = Violation {
 				oracle: oracle.to_owned(),
 				signature: signature.to_owned(),
-				detail: detail.into(),
+				detail,
 			};
 			self.event(format!("VIOLATION {} {}", v.oracle, v.signature));
 			self.violation = Some(v);
